@@ -517,7 +517,49 @@ ASSUMPTIONS = [
     "closed forms over whole histories follow from the one-step recurrences by induction (lemmas/ *.lean when built); per-step clauses are what is discharged here",
 ]
 
+
+def _mk_ctor_flags(cls, file, args):
+    @contract(P, f"{cls}.__init__[record configuration]", [(file, f"{cls}.__init__"), (RB, "FoldReducer.__init__"), (RB, "RecordReducer.__init__")], tags=("reducer",), min_obligations=3)
+    def ctor(c, cls=cls):
+        """what the constructor is told about the history is what the record is: step time, duration, INCLUSIVE flag (one
+        extra slot, so that view(duration) is readable), and the in-place flag - none of them mixed up with another"""
+        dt, dur = c.real("dt"), c.real("dur")
+        c.require(dt > 0, dur >= 0)
+        incl = c.choice("inclusive", [False, True])
+        inplace = c.choice("inplace", [False, True])
+        a = [x() if callable(x) and not isinstance(x, Model) else x for x in args]
+        red = new_reducer(c, file, cls, dt, *a, duration=dur, inclusive=incl, inplace=inplace)
+        c.ensure("record_step_time_and_duration", z3.And(num(red.fields["_data__dt"]) == dt.z, num(red.fields["_data__duration"]) == dur.z))
+        c.ensure("record_inclusive_flag", as_b(red.fields["_data__inclusive"]) == z3.BoolVal(incl))
+        c.ensure("inplace_flag", as_b(c.getattr(red, "inplace")) == z3.BoolVal(inplace))
+        c.ensure("reported_configuration", z3.And(num(c.getattr(red, "dt")) == dt.z, num(c.getattr(red, "duration")) == dur.z))
+        c.canary("canary_always_inclusive", as_b(red.fields["_data__inclusive"]))
+
+    return ctor
+
+
+def as_b(v):
+    from pyvc.sym import as_bool
+
+    return as_bool(v) if not isinstance(v, bool) else z3.BoolVal(v)
+
+
+for _cls, _file, _args in (
+    ("EMAReducer", RS, (0.25,)),
+    ("CAReducer", RS, ()),
+    ("PassthroughReducer", RG, ()),
+    ("EventReducer", RG, (Model(lambda it, x: x, "criterion"),)),
+    ("NearestTraceReducer", RT, (3.0, 0.5, True)),
+    ("CumulativeTraceReducer", RT, (3.0, 0.5, True)),
+    ("ScaledNearestTraceReducer", RT, (3.0, 0.5, 2.0, Model(lambda it, x: x, "criterion"))),
+    ("ScaledCumulativeTraceReducer", RT, (3.0, 0.5, 2.0, Model(lambda it, x: x, "criterion"))),
+    ("ConditionalNearestTraceReducer", RT, (3.0, 0.5, 2.0)),
+    ("ConditionalCumulativeTraceReducer", RT, (3.0, 0.5, 2.0)),
+):
+    _mk_ctor_flags(_cls, _file, _args)
+
 MUTANTS = [
+    dict(file=RS, func="EMAReducer.__init__", old="FoldReducer.__init__(self, step_time, duration, inclusive, inplace, 0)", new="FoldReducer.__init__(self, step_time, duration, inplace, inclusive, 0)", contracts=["EMAReducer.__init__[record configuration]"], name="seed C07g: inclusive and inplace swapped on the way to the base class"),
     dict(file=RT, func="CumulativeTraceReducer.fold", old="            tolerance=self.tolerance,\n", new="", contracts=["CumulativeTraceReducer.forward"], name="seed C07f: the configured matching tolerance is not handed to the trace kernel"),
     dict(file=RT, func="ConditionalCumulativeTraceReducer.fold", old="matchfn=partial(lambda o, c: c, c=cond),", new="matchfn=partial(lambda o, c: ~c, c=cond),", contracts=["ConditionalCumulativeTraceReducer.forward"], name="conditional trace updated where the condition does NOT hold"),
     dict(file=T3F, func="EligibilityTraceReducer.__init__", old="        self.scale = 1 / self.time_constant", new="        self.scale = 1.0", contracts=["EligibilityTraceReducer.forward"], name="eligibility increment not scaled by 1/tau_z"),
